@@ -146,6 +146,11 @@ def programs():
     # ---- small variants for the quick tier ----
     P["nest_s"] = Program("nest_s", {1: job(grp=2), 2: job(grp=1, par=[1], always=True, cores=250)},
                           {1: dict(parent=0, upd=1), 2: dict(parent=1, upd=1)}, 1)
+    P["nestc"] = Program("nestc", {1: job(grp=2), 2: job(grp=1, par=[1], always=True, cores=250)},
+                         {1: dict(parent=0, upd=1), 2: dict(parent=1, upd=1)}, 1, features=("cleaners",))
+    P["alw"] = Program("alw", {1: job(grp=1), 2: job(grp=1, always=True, cores=250)}, {1: dict(parent=0, upd=1)}, 1)
+    # two updates with independent jobs (the out-of-order commit scenario needs update 2 to bring ready work of its own)
+    P["ooc2"] = Program("ooc2", {1: job(), 2: job(upd=2, cores=250)}, {}, 2)
     P["sib"] = Program("sib", {1: job(grp=1), 2: job(grp=2, cores=250)}, {1: dict(parent=0, upd=1), 2: dict(parent=0, upd=1)}, 1)
     P["jpim_s"] = Program("jpim_s", {1: job(grp=1)}, {1: dict(parent=0, upd=1)}, 1, features=("jpim", "deactivate"))
     P["retry_s"] = Program("retry_s", {1: job()}, {}, 1, att_ids=("a1", "a2"), insts=("i1", "i2"), features=("deactivate",))
@@ -269,13 +274,15 @@ class Impl:
         elif name == "Complete":
             j, a, i, st, t0, t1 = args
             r = w.mark_job_complete(b, j, a, i, st, t0, t1, "completed")
-        elif name == "CancelReady":
+        elif name in ("CancelReadySelect", "CancelCreatingSelect", "CancelRunningSelect", "OrphanSelect"):
+            r = None  # the loop body's query: the call it queues is a separate step
+        elif name == "CancelReadyCall":
             (j,) = args
             r = w.mark_job_complete(b, j, None, None, "Cancelled", None, None, "cancelled")
-        elif name == "CancelCreating":
+        elif name == "CancelCreatingCall":
             j, a, t = args
             r = w.mark_job_complete(b, j, a, self.inst_of(j, a), "Cancelled", None, t, "cancelled")
-        elif name in ("CancelRunning", "Orphan"):
+        elif name == "UnscheduleCall":
             j, a, t = args
             r = w.unschedule_job(b, j, a, self.inst_of(j, a), t)
         elif name == "Activate":
@@ -476,8 +483,8 @@ def selection_expected(p: Program, st):
     return exp
 
 
-EDGE_LOOP = {"CancelReady": "cancel_ready", "CancelCreating": "cancel_creating", "CancelRunning": "cancel_running", "Orphan": "orphan",
-             "SchedSelect": "schedule"}
+EDGE_LOOP = {"CancelReadySelect": "cancel_ready", "CancelCreatingSelect": "cancel_creating", "CancelRunningSelect": "cancel_running",
+             "OrphanSelect": "orphan", "SchedSelect": "schedule"}
 
 
 def check_selection_at(p, impl, got, out_edges, path):
@@ -497,9 +504,9 @@ def check_selection_at(p, impl, got, out_edges, path):
         name, args = tlc.parse_action_label(lab)
         if name in EDGE_LOOP:
             args = [str(a) if isinstance(a, tlaval.Sym) else a for a in args]
-            by_loop[EDGE_LOOP[name]].add((args[0],) if name in ("CancelReady", "SchedSelect") else (args[0], args[1]))
+            by_loop[EDGE_LOOP[name]].add((args[0],) if name in ("CancelReadySelect", "SchedSelect") else (args[0], args[1]))
     for loop, s in by_loop.items():
-        if not s <= exp[loop] or (loop in ("cancel_ready", "cancel_running", "orphan") and s != exp[loop]):
+        if not s <= exp[loop]:       # (a select is not enabled for a row whose call is still pending, or without a free attempt id)
             raise RuntimeError(f"harness predicate for {loop} disagrees with the specification: graph {sorted(s)} vs predicate {sorted(exp[loop])}")
     return problems
 
@@ -548,6 +555,14 @@ def replay_graph(ctx, p: Program, graph: tlc.Graph, *, seed=0, max_steps=None, f
                 if d:
                     mism.append(dict(path=list(path), label=lab, diff=d))
                     break
+                if "billing" in p.features and steps % 3 == 0:
+                    # C02: compacting the sharded billing tables (real driver.main functions) never changes any total
+                    r1, r2 = impl.w.compact_billing()
+                    after = impl.project()
+                    dc = diff({x: got[x] for x in COMPARE}, {x: after[x] for x in COMPARE})
+                    if dc or r1.kind != "ok" or r2.kind != "ok":
+                        mism.append(dict(path=list(path) + ["<compact>"], label="Compact", diff=dc or {"ubp": {"error": repr((r1, r2))}}))
+                        break
                 if check_selection and dst not in sel_checked:
                     sel_checked.add(dst)
                     sel_problems.extend(check_selection_at(p, impl, got, out_edges.get(dst, ()), path))
@@ -630,7 +645,7 @@ def run_property(ctx, pid, invariants, properties, quick_programs, thorough_prog
         for m in mism:
             keys = sorted(m["diff"])
             touched = sorted({k.split(".")[0] for k in keys})
-            act = tlc.parse_action_label(m["label"])[0] if m["label"] != "<init>" else "init"
+            act = tlc.parse_action_label(m["label"])[0] if m["label"] not in ("<init>", "Compact") else m["label"].strip("<>")
             if foot & set(touched) or "_extra" in touched:
                 ctx.violation(f"replay:{act}:{','.join(t for t in touched if t in foot or t == '_extra')}",
                               {"program": n, "path": m["path"], "diff": m["diff"]})
@@ -747,7 +762,7 @@ def random_history(p: Program, rng: random.Random, length: int, seed: int):
     out of the scenarios of recorded findings.  Returns the list of events."""
     impl = Impl(p, seed=seed)
     ev = []
-    disp, jdisp = set(), set()
+    disp, jdisp, pcall = set(), set(), set()
     st = impl.project()
     J = sorted(p.jobs)
     G = sorted(p.groups)
@@ -791,20 +806,32 @@ def random_history(p: Program, rng: random.Random, length: int, seed: int):
                                 and not any(t[2] == i for t in disp):
                             cands.append(("JpimSelect", [j, free_a[0], i]))
                 for (j,) in (sel["cancel_ready"] if isinstance(sel["cancel_ready"], set) else ()):
-                    if not has_uncommitted_child(j):
-                        cands += [("CancelReady", [j])] * 3
-                for loop, act in (("cancel_creating", "CancelCreating"), ("cancel_running", "CancelRunning"), ("orphan", "Orphan")):
+                    if ("ready", j, "NULL") not in pcall:
+                        cands += [("CancelReadySelect", [j])] * 3
+                for loop, act, kind in (("cancel_creating", "CancelCreatingSelect", "creating"), ("cancel_running", "CancelRunningSelect", "unsched"),
+                                        ("orphan", "OrphanSelect", "unsched")):
                     for (j, a) in (sel[loop] if isinstance(sel[loop], set) else ()):
-                        if act == "CancelCreating" and (has_uncommitted_child(j) or live.get(st["att"][j][a]["inst"]) == "pending"):
-                            continue  # stays out of "uncchild" / "pendrel"
-                        cands += [(act, [j, a, rng.choice(p.times)])] * 3
+                        if (kind, j, a) not in pcall:
+                            cands += [(act, [j, a])] * 3
+            for (kind, j, a) in sorted(pcall):
+                # calls already queued by a loop body; they may have gone stale meanwhile
+                if kind == "ready":
+                    if not (st["js"][j] in ("Ready", "Creating", "Running") and has_uncommitted_child(j)):
+                        cands += [("CancelReadyCall", [j])] * 2
+                elif kind == "creating":
+                    stale = st["jatt"][j] not in ("NULL", a)
+                    if live.get(st["att"][j][a]["inst"]) != "pending" and not (
+                            not stale and st["js"][j] in ("Ready", "Creating", "Running") and has_uncommitted_child(j)):
+                        cands += [("CancelCreatingCall", [j, a, rng.choice(p.times)])] * 2     # stays out of "uncchild" / "pendrel"
+                else:
+                    cands += [("UnscheduleCall", [j, a, rng.choice(p.times)])] * 2
             for (j, a, i) in sorted(disp):
                 cands.append(("ScheduleProc", [j, a, i]))
                 if live[i] in ("active", "inactive"):
                     cands.append(("Started", [j, a, i, rng.choice(p.times)]))
                     if not (st["js"][j] in ("Ready", "Creating", "Running") and has_uncommitted_child(j)):
                         t0, t1 = sorted([rng.choice(p.times), rng.choice(p.times)])
-                        cands.append(("Complete", [j, a, i, rng.choice(["Success", "Success", "Failed"]), t0, t1]))
+                        cands.append(("Complete", [j, a, i, rng.choice(["Success", "Success", "Failed", "Error"]), t0, t1]))
                     if "billing" in p.features and st["att"][j][a]["ex"]:
                         cands.append(("Heartbeat", [j, a, rng.choice(p.times)]))
                 if "billing" in p.features and st["att"][j][a]["ex"]:
@@ -817,16 +844,33 @@ def random_history(p: Program, rng: random.Random, length: int, seed: int):
                     cands.append(("Deactivate", [i, rng.choice(p.times)]))
             if "billing" in p.features and rng.random() < 0.05:
                 cands.append(("NextDay", []))
+            if "billing" in p.features and rng.random() < 0.15:
+                cands += [("Compact", [])] * 2
             if "cleaners" in p.features and rng.random() < 0.2:
                 cands += [("CleanStaging", []), ("CleanCancellable", [])]
             name, args = rng.choice(cands)
             if name == "NextDay" and st["today"] + 1 not in p.days:
                 continue
-            impl.apply(name, args)
+            if name == "Compact":
+                impl.w.compact_billing()
+            else:
+                impl.apply(name, args)
             if name in ("SchedSelect", "JpimSelect"):
                 disp.add(tuple(args))
                 if name == "JpimSelect":
                     jdisp.add(tuple(args))
+            elif name == "CancelReadySelect":
+                pcall.add(("ready", args[0], "NULL"))
+            elif name == "CancelCreatingSelect":
+                pcall.add(("creating", args[0], args[1]))
+            elif name in ("CancelRunningSelect", "OrphanSelect"):
+                pcall.add(("unsched", args[0], args[1]))
+            elif name == "CancelReadyCall":
+                pcall.discard(("ready", args[0], "NULL"))
+            elif name == "CancelCreatingCall":
+                pcall.discard(("creating", args[0], args[1]))
+            elif name == "UnscheduleCall":
+                pcall.discard(("unsched", args[0], args[1]))
             new = impl.project()
             noop = all(new[k] == st[k] for k in COMPARE)
             ev.append({"a": name, "args": args, "noop": noop, "post": trace_post(p, new)})
